@@ -592,3 +592,14 @@ Qed.
 
 Lemma guarded_commit_total : forall t n its, DInv t -> guarded t n its = true -> exists t', dcommit t n its = Some t'.
 Proof. intros t n its Hinv Hg. unfold dcommit, guarded in *. apply guarded_commit_l_total; assumption. Qed.
+
+(* a claim that an earlier pod of the pass allocated is never sent through the search again *)
+Lemma allocated_once_l : forall alloc only_deleting, classify alloc only_deleting true <> CUnalloc.
+Proof. intros [|] [|]; simpl; discriminate. Qed.
+
+Lemma allocated_once_before_fix_refuted_l : exists alloc only_deleting, classify_before_fix alloc only_deleting true = CUnalloc.
+Proof. exists true, true. reflexivity. Qed.
+
+(* a claim whose consumers are all being deleted is allocated afresh exactly once, the first time it is seen *)
+Lemma migrating_claim_reallocated_first_l : classify true true false = CUnalloc /\ classify true true true = CInMemory.
+Proof. split; reflexivity. Qed.
